@@ -318,7 +318,7 @@ def plant_inconsistent(rng, w):
     return True
 
 
-def plant_read_write(rng, w):
+def plant_read_write(rng, w, guarded=None):
     """an action whose conditional / universal effects READ (in a condition or on a right-hand side) a fluent that the
     unconditional group of the same action WRITES, and the other way round; every group writes its own function, so the
     firing groups are consistent in every state.  With a constant of the quantified type in half of the cases (D30)."""
@@ -400,13 +400,13 @@ def plant_read_write(rng, w):
         items.append(["forall", ["?u", "-", ty], ["when", cond, res if rng.random() < 0.6 else ["and", res]]])
         w.features.add("forall-when")
     rng.shuffle(items)
-    r = rng.random()
+    r = rng.random() if guarded is None else (0.5 + rng.random() / 2 if guarded else 0.0)
     pre = ["and"] if r < 0.5 else ["and", [rng.choice(["<=", "<"]), copy_tree(F), rng.choice(["3", "4", "10"])]] if r < 0.8 \
         else ["and", [rng.choice([">=", ">"]), copy_tree(F), rng.choice(["1", "2"])]]
     name = "rw%d" % len(w.actions)
     w.actions.append({"name": name, "params": params, "group": False, "pre": pre, "eff": ["and"] + items})
     w.features.add("read-write")
-    return {"name": name, "F": F, "params": params}
+    return {"name": name, "F": F, "params": params, "pre": pre}
 
 
 # ----- the small scope: one action over {p/1, q/0, f/1, h/0}, types u < t, objects o0 - t, o1 - u
@@ -704,7 +704,7 @@ def run(args):
                 if lit is None:
                     lit = full_literal(wd, res, cfg["epsilon"])
                 lits.append(lit)
-                units.append(2 * len(wd["probes"]) + len(res.get("seqs", [])))
+                units.append(2 * len(wd["probes"]) + 2 * len(res.get("seqs", [])))
                 keep.append(wi)
             verdicts, info = run_case_shards(PROP, "Corr.C03", lits, shard_size=8, units=units, header_extra=HEADER,
                                              max_bytes=110_000)
@@ -741,30 +741,35 @@ def run(args):
                                           "witness_of": wd.get("witness_of"), "klass": pr.get("klass")})
                         verdict_list.append(ch)
                 for sq, r in zip(wd.get("seqs", []), res.get("seqs", [])):
-                    ch = verdicts[pos]
-                    pos += 1
-                    if ch == "." and hs != hashseeds[0]:
-                        skipped_ok += 1
-                        continue
-                    if ch == ".":
-                        inp = {"world": light, "seq": sq, "unit": "seq"}
-                    else:
-                        # the states the sequence uses, renumbered; a replay runs exactly this sequence
-                        used = sorted({sq["start"]} | {st["src"] for st in sq["steps"] if st["src"] is not None})
-                        ren = {j: i for i, j in enumerate(used)}
-                        sq1 = dict(sq, start=ren[sq["start"]], call=0,
-                                   steps=[dict(st, src=None if st["src"] is None else ren[st["src"]]) for st in sq["steps"]])
-                        one = {"domain_text": wd["domain_text"], "objects": wd["objects"], "states": [wd["states"][j] for j in used],
-                               "problem_texts": [wd["problem_texts"][j] for j in used], "probes": [], "seqs": [sq1],
-                               "stream": wd["stream"], "features": wd["features"], "witness_of": wd.get("witness_of"), "compact": False}
-                        inp = {"world": one, "unit": "seq", "hashseed": hs, "implementation": r}
                     returned = sum(1 for o in r["steps"] if "value" in o.get("succ", {}))
                     nontrivial = hs == hashseeds[0] and returned >= 2 and any(
                         o.get("trace", {}).get(k, 0) > 0 for o in r["steps"]
                         for k in ("when_fired", "when_not", "univ_fired", "univ_not", "numeric_applied"))
-                    all_cases.append({"lit": lit, "input": inp, "nontrivial": nontrivial, "witness_of": wd.get("witness_of"),
-                                      "klass": None})
-                    verdict_list.append(ch)
+                    for kind in ("seq", "seq-late"):
+                        ch = verdicts[pos]
+                        pos += 1
+                        if ch == "." and hs != hashseeds[0]:
+                            skipped_ok += 1
+                            continue
+                        if ch == ".":
+                            inp, lit1 = {"world": light, "seq": sq, "unit": kind}, lit
+                        else:
+                            # the states the sequence uses, renumbered; a replay runs exactly this sequence
+                            used = sorted({sq["start"]} | {st["src"] for st in sq["steps"] if st["src"] is not None})
+                            ren = {j: i for i, j in enumerate(used)}
+                            sq1 = dict(sq, start=ren[sq["start"]], call=0,
+                                       steps=[dict(st, src=None if st["src"] is None else ren[st["src"]]) for st in sq["steps"]])
+                            one = {"domain_text": wd["domain_text"], "objects": wd["objects"], "states": [wd["states"][j] for j in used],
+                                   "problem_texts": [wd["problem_texts"][j] for j in used], "probes": [], "seqs": [sq1],
+                                   "stream": wd["stream"], "features": wd["features"], "witness_of": wd.get("witness_of"), "compact": False}
+                            inp = {"world": one, "unit": kind, "hashseed": hs, "implementation": r,
+                                   "what": "one Operator object, the calls of 'steps' in turn (src null = applied to the state the previous "
+                                           "call returned, src j = to a fresh copy of state j); unit seq = the states read back at once, "
+                                           "seq-late = the same State objects read back after the last call"}
+                            lit1 = full_literal(one, {"nums": res["nums"], "probes": [], "seqs": [r]}, cfg["epsilon"])
+                        all_cases.append({"lit": lit1, "input": inp, "nontrivial": nontrivial and kind == "seq",
+                                          "witness_of": wd.get("witness_of"), "klass": None})
+                        verdict_list.append(ch)
             if hs == hashseeds[0]:
                 for wd, res in zip(worlds, results):
                     stats["worlds"] += 1
@@ -834,8 +839,12 @@ def run(args):
                             sqs["returned_state_changed_afterwards"] += 1 if "late" in o else 0
                         sqs["sequences_with_2+_executed_numeric_calls"] += 1 if numeric_exec >= 2 else 0
     stats["distinct_forced_orders"] = len(orders_seen)
+    # reports: a wrong state returned at once before a state that changed afterwards (the order of the cases is immaterial)
+    ranked = sorted(range(len(all_cases)), key=lambda i: 1 if all_cases[i]["input"].get("unit") == "seq-late" else 0)
+    all_cases = [all_cases[i] for i in ranked]
+    verdict_list = [verdict_list[i] for i in ranked]
     all_verdicts = "".join(verdict_list)
-    decide(rep, PROP, "Corr.C03", all_cases, all_verdicts, info_total, explain_expr="explain (%s)", header_extra=HEADER,
+    decide(rep, PROP, "Corr.C03", all_cases, all_verdicts, info_total, explain_expr="explain_all (%s)", header_extra=HEADER,
            max_replays=5)
     cov = rep.coverage
     cov["evaluations"] = cov.get("evaluations", 0) + skipped_ok
